@@ -26,13 +26,30 @@ const PRELUDE: &str = r#"
 (define (alloc-loop acc) (alloc-loop (cons (box 1) '())))
 (define (loop-n n) (if (= n 0) 0 (loop-n (- n 1))))
 (define (forever-list) (let lp ((i 0)) (lp (+ i 1))))
+(define (fib n) (if (< n 2) n (+ (fib (- n 1)) (fib (- n 2)))))
+(define (ack m n) (cond ((= m 0) (+ n 1)) ((= n 0) (ack (- m 1) 1)) (else (ack (- m 1) (ack m (- n 1))))))
+(require "c17mod")
 (define saved #f)
 (define base-a 10)
 (define (base-f x) (+ x base-a))
 "#;
 
+const MODULE: &str = "(provide mspin mping)\n(define (mspin x) (mspin (+ x 1)))\n(define (mping x) (mpong (+ x 1)))\n(define (mpong x) (mping x))\n";
+
+/// Shapes that are known to be expensive when they go wrong get fewer arrival
+/// points: every STRIDE-th step of the window.
+const SPARSE: &[&str] = &["tree-recursion", "ackermann", "module-self-tail-loop", "module-mutual-tail-loop", "transduce-into-count", "transduce-into-last", "transduce-into-nth"];
+const STRIDE: u64 = 24;
+
 /// (name, program)
 pub const SHAPES: &[(&str, &str)] = &[
+    ("tree-recursion", "(fib 70)"),
+    ("ackermann", "(ack 4 3)"),
+    ("module-self-tail-loop", "(mspin 0)"),
+    ("module-mutual-tail-loop", "(mping 0)"),
+    ("transduce-into-count", "(transduce (range 0 400) (mapping (lambda (x) (loop-n 2000))) (into-count))"),
+    ("transduce-into-last", "(transduce (range 0 400) (mapping (lambda (x) (loop-n 2000))) (into-last))"),
+    ("transduce-into-nth", "(transduce (range 0 400) (mapping (lambda (x) (loop-n 2000))) (into-nth 399))"),
     ("self-tail-loop", "(spin)"),
     ("mutual-tail-loop", "(ping)"),
     ("tail-loop-with-arg", "(count-up 0)"),
@@ -63,6 +80,21 @@ pub const SHAPES: &[(&str, &str)] = &[
 const WINDOW: u64 = 240;
 const BOUND: u64 = 1000;
 
+/// every (shape, tier, arrival step) of one pass over the window
+fn plan() -> Vec<(usize, bool, u64)> {
+    let mut p = Vec::new();
+    for (si, sh) in SHAPES.iter().enumerate() {
+        let stride = if SPARSE.contains(&sh.0) { STRIDE } else { 1 };
+        let mut k = 0;
+        while k < WINDOW {
+            p.push((si, false, k));
+            p.push((si, true, k));
+            k += stride;
+        }
+    }
+    p
+}
+
 impl Scenario for C17 {
     fn name(&self) -> &'static str {
         "c17-interrupt"
@@ -74,25 +106,30 @@ impl Scenario for C17 {
         vmh::build_prototypes(true, true);
     }
     fn default_runs(&self, thorough: bool) -> u64 {
-        let full = SHAPES.len() as u64 * 2 * WINDOW;
+        let full = plan().len() as u64;
         if thorough { full * 4 } else { full }
     }
     fn timeout_ms(&self) -> u64 {
-        20_000
+        12_000
     }
     fn hang_signature(&self) -> Option<String> {
         Some("C17/evaluation-did-not-stop".into())
     }
+    fn refine_signature(&self, signature: &str, w: &Value) -> Option<String> {
+        if signature == "C17/evaluation-did-not-stop" {
+            let tier = if w["jit"].as_bool().unwrap_or(false) { "jit" } else { "nojit" };
+            return Some(format!("C17/{}/{}/evaluation-did-not-stop", tier, w["name"].as_str().unwrap_or("?")));
+        }
+        None
+    }
 
     fn child(&self, spec: &Spec) {
-        let per_shape = 2 * WINDOW;
         let (shape, jit, k) = if spec.overrides.is_null() {
-            let i = spec.index % (SHAPES.len() as u64 * per_shape);
-            let shape = (i / per_shape) as usize;
-            let r = i % per_shape;
+            let p = plan();
+            let (shape, jit, k) = p[(spec.index % p.len() as u64) as usize];
             // later passes (thorough) move the window further out
-            let pass = spec.index / (SHAPES.len() as u64 * per_shape);
-            (shape, r % 2 == 0, r / 2 + pass * WINDOW)
+            let pass = spec.index / p.len() as u64;
+            (shape, jit, k + pass * WINDOW)
         } else {
             (
                 spec.overrides["shape"].as_u64().unwrap_or(0) as usize,
@@ -122,6 +159,7 @@ impl Scenario for C17 {
         );
         let tier = if jit { "jit" } else { "nojit" };
         vmh::set_context(&format!("{}/{}", tier, SHAPES[shape].0));
+        engine.register_steel_module("c17mod".to_string(), MODULE.to_string());
         if let Err(e) = vmh::eval(&mut engine, PRELUDE) {
             report::harness_error(format!("prelude failed: {}", e));
         }
@@ -195,7 +233,7 @@ impl Scenario for C17 {
     }
 
     fn rule(&self) -> String {
-        format!("fault enumeration: {} long-running program shapes (self/mutual/argument tail loops, non-tail recursion, primitive-only and allocating loops, named let, loops inside map/transduce/for-each/foldl/apply/sort callbacks, loops in and under handlers, in each dynamic-wind thunk, continuation generator, while, struct/hash/string loops) x 2 tiers x an interrupt raised at every dispatch step k in 0..{} (thorough: further windows); oracle: Err within {} further dispatch steps, then resume, stack check, probe, and a second interrupt; a run that does not end in real time is a violation; non-trivial = every run", SHAPES.len(), WINDOW, BOUND)
+        format!("fault enumeration: {} long-running program shapes (self/mutual/argument tail loops, non-tail recursion, primitive-only and allocating loops, named let, loops inside map/transduce/for-each/foldl/apply/sort callbacks, loops in and under handlers, in each dynamic-wind thunk, continuation generator, while, struct/hash/string loops, and - at every 24th step only - tree recursion, Ackermann, self and mutual tail loops provided by a required module, transduce into a counting / last-element / nth-element reducer with long-running callbacks) x 2 tiers x an interrupt raised at every dispatch step k in 0..{} (thorough: further windows); oracle: Err within {} further dispatch steps, then resume, stack check, probe, and a second interrupt; a run that does not end in real time is a violation; non-trivial = every run", SHAPES.len(), WINDOW, BOUND)
     }
     fn assumptions(&self) -> Vec<String> {
         vec![
